@@ -18,8 +18,6 @@ package PKGNAME
 //   honest reading      : the multiplication hint has its meaning (integer quotient, remainder, the
 //                         carries of the limb-wise products); every range check holds, every deferred
 //                         identity holds: the honest prover is never rejected.
-//verif:unwind 6000
-//verif:replay interpreter
 
 import (
 	"math/big"
@@ -267,6 +265,18 @@ func verifEmElement(f *Field[verifEmParams], n int, of uint) *Element[verifEmPar
 	return f.newInternalElement(limbs, of)
 }
 
+// a = b modulo the emulated modulus p, for integers below 2^25, WITHOUT a division: d = a + 2^20 p - b is divisible by the
+// odd constant p iff d * p^-1 (mod 2^32) <= (2^32-1)/p  (multiplication by a constant and a comparison: the solver
+// normalises k*p*p^-1 to k, where a remainder would have to be bit-blasted as a divider)
+func verifEmCong(a, b uint32) bool {
+	inv := uint32(verifP) // Newton iteration for p^-1 modulo 2^32 (p odd): concrete, folded by the executor
+	for i := 0; i < 5; i++ {
+		inv *= 2 - uint32(verifP)*inv
+	}
+	d := a + uint32(verifP)<<20 - b
+	return d*inv <= ^uint32(0)/uint32(verifP)
+}
+
 // the integer an element stands for
 func verifEmVal(e *Element[verifEmParams]) uint32 {
 	var v uint32
@@ -276,13 +286,14 @@ func verifEmVal(e *Element[verifEmParams]) uint32 {
 	return v
 }
 
-// every limb is below 2^(3+overflow): the invariant all overflow bookkeeping rests on
+// every limb is below 2^(3+overflow): the invariant all overflow bookkeeping rests on (whether the native field is
+// ever exceeded is judged by the congruence of the results: the stand-in's arithmetic really wraps modulo q)
 func verifEmWellFormed(e *Element[verifEmParams]) bool {
 	ok := true
 	for i := range e.Limbs {
 		ok = verifAnd(ok, verifNU(e.Limbs[i]) < uint32(1)<<(verifT+e.overflow))
 	}
-	return verifAnd(ok, verifT+e.overflow <= verifQBits-2)
+	return ok
 }
 
 // what the random-point test of a deferred multiplication check establishes (Schwartz-Zippel over the committed challenge):
@@ -341,130 +352,4 @@ func verifEmDeferred(f *Field[verifEmParams], e *verifEmEng, boundedCarries bool
 func verifEmOverflow() uint {
 	ofs := []uint{0, 1, verifQBits - 2 - verifT}
 	return ofs[verifChoose(len(ofs))]
-}
-
-// ---------------------------------------------------------------------------------------------------
-// linear operations and selections: no hints unless an operand has to be reduced first
-
-func verifHarness_emulatedLinear() {
-	adv := true // the linear operations call hints only to reduce an operand first: the adversarial reading covers the honest one
-	f, e := verifMkEmField(adv)
-	op := LINOPSEL
-	a := verifEmElement(f, verifChoose(4), verifEmOverflow())
-	b := verifEmElement(f, 2+verifChoose(2), verifEmOverflow())
-	av, bv := verifEmVal(a), verifEmVal(b)
-	var r *Element[verifEmParams]
-	var want uint32 // value the result must be congruent to (kept non-negative by adding a multiple of p)
-	const bigP = verifP << 16
-	switch op {
-	case 0:
-		r = f.Add(a, b)
-		want = av + bv
-	case 1:
-		r = f.Sub(a, b)
-		want = av + bigP - bv
-	case 2:
-		r = f.Neg(a)
-		want = bigP - av
-	case 3:
-		c := verifEmElement(f, 2, uint(verifChoose(2)))
-		r = f.Sum(a, b, c)
-		want = av + bv + verifEmVal(c)
-	case 4:
-		consts := []int64{0, 1, 2, 3, 5, 8, -1, -3}
-		k := consts[verifChoose(len(consts))]
-		r = f.MulConst(a, big.NewInt(k))
-		if k >= 0 {
-			want = av * uint32(k)
-		} else {
-			want = bigP*8 - av*uint32(-k)
-		}
-	case 5:
-		s := verifNondetU32("selector")
-		verifAssume(s < 2)
-		r = f.Select(verifN{s}, a, b)
-		want = s*av + (1-s)*bv
-	case 6:
-		c := verifEmElement(f, verifChoose(3), 0)
-		d := verifEmElement(f, 2, 1)
-		s0, s1 := verifNondetU32("b0"), verifNondetU32("b1")
-		verifAssume(s0 < 2)
-		verifAssume(s1 < 2)
-		r = f.Lookup2(verifN{s0}, verifN{s1}, a, b, c, d)
-		want = (1-s1)*((1-s0)*av+s0*bv) + s1*((1-s0)*verifEmVal(c)+s0*verifEmVal(d))
-	case 7:
-		c := verifEmElement(f, verifChoose(3), 0)
-		s := verifNondetU32("sel")
-		verifAssume(s < 3)
-		r = f.Mux(verifN{s}, a, b, c)
-		want = verifEmVal(c)
-		if s == 0 {
-			want = av
-		} else if s == 1 {
-			want = bv
-		}
-	}
-	// reductions of operands go through the multiplication hint: its deferred check is read with bounded carries here
-	// (the reading "as emitted" is the subject of verifHarness_emulatedMul)
-	verifEmDeferred(f, e, true)
-	for i := range r.Limbs {
-		verifAssert(r.Limbs[i] != nil, "every limb of the result is set")
-	}
-	verifAssert(verifEmWellFormed(r), "every limb of the result is below 2^(w + tracked overflow) and the tracked overflow fits the native field")
-	verifAssert(verifEmVal(r)%verifP == want%verifP, "the result is congruent to the integer result modulo the emulated modulus")
-	verifReach("emulated-linear")
-}
-
-// ---------------------------------------------------------------------------------------------------
-// multiplication, reduction, equality: hints + deferred checks
-
-func verifHarness_emulatedMul() {
-	adv := verifChoose(2) == 1
-	bounded := false
-	sfx := " [honest hints]"
-	if adv {
-		bounded = verifChoose(2) == 1
-		sfx = " [adversarial hints; deferred checks as emitted]"
-		if bounded {
-			sfx = " [adversarial hints; carries assumed bounded]"
-		}
-	}
-	f, e := verifMkEmField(adv)
-	op := verifChoose(4)
-	var a, b *Element[verifEmParams]
-	switch verifChoose(3) {
-	case 0: // two elements in normal form
-		a, b = verifEmElement(f, EMNBLIMBS, 0), verifEmElement(f, EMNBLIMBS, 0)
-	case 1: // operands that have to be reduced first
-		a, b = verifEmElement(f, EMNBLIMBS, 1+uint(verifChoose(2))), verifEmElement(f, EMNBLIMBS, uint(verifChoose(2)))
-	case 2: // short operands
-		a, b = verifEmElement(f, 1, 0), verifEmElement(f, EMNBLIMBS, 0)
-	}
-	av, bv := verifEmVal(a), verifEmVal(b)
-	switch op {
-	case 0:
-		r := f.Mul(a, b)
-		verifEmDeferred(f, e, bounded)
-		verifAssert(verifEmWellFormed(r), "the product's limbs are below 2^(w + tracked overflow)"+sfx)
-		verifAssert(verifEmVal(r)%verifP == (av*bv)%verifP, "Mul(a, b) is congruent to a*b modulo the emulated modulus"+sfx)
-	case 1:
-		r := f.Reduce(a)
-		verifEmDeferred(f, e, bounded)
-		verifAssert(verifEmWellFormed(r), "the reduced element's limbs are below 2^(w + tracked overflow)"+sfx)
-		verifAssert(r.overflow == 0, "a reduced element has no overflow"+sfx)
-		verifAssert(verifEmVal(r)%verifP == av%verifP, "Reduce(a) is congruent to a modulo the emulated modulus"+sfx)
-	case 2:
-		if !adv {
-			verifAssume(av%verifP == bv%verifP) // honest reading: inside the relation
-		}
-		f.AssertIsEqual(a, b)
-		verifEmDeferred(f, e, bounded)
-		verifAssert(av%verifP == bv%verifP, "AssertIsEqual(a, b) is satisfiable only for a congruent to b"+sfx)
-	case 3:
-		r := f.MulNoReduce(a, b)
-		verifEmDeferred(f, e, bounded)
-		verifAssert(verifEmWellFormed(r), "the unreduced product's limbs are below 2^(w + tracked overflow)"+sfx)
-		verifAssert(verifEmVal(r)%verifP == (av*bv)%verifP, "MulNoReduce(a, b) is congruent to a*b modulo the emulated modulus"+sfx)
-	}
-	verifReach("emulated-mul")
 }
